@@ -64,6 +64,22 @@ CLAIMED = {
             'compound boxes compared with the union of the library\'s own '
             'leaf boxes (leaf boxes are checked individually).',
             'DESIGN.md section 5, C04'),
+    'C03': ('exploration',
+            'Hypothesis property test of exact masks against an independent '
+            'mpmath Green-theorem overlap area (1e-8) + complete enumeration '
+            'of an aligned lattice + convergence bound for subpixel masks',
+            'Generic geometry: random circles/ellipses over 6 decades of size, '
+            'whole masks (range, sum = analytic area) and boundary pixels vs '
+            'the 30-digit reference; aligned geometry: 7 400 (quick) / 18 500 '
+            '(thorough) lattice regions enumerated completely, every pixel '
+            'compared; convergence: per-pixel bound from the boundary pieces '
+            'inside the pixel. The elliptical kernel fails on 512 listed '
+            'lattice inputs (known finding, excluded by key). Detects a 1e-6 '
+            'relative perturbation inside the compiled kernel (mutant run).',
+            'mpmath; reference algorithm vf/ref/area_mp.py validated against '
+            'closed forms and 2000^2 grid sampling; kernels are the built .so '
+            '(rebuilt from .c when stale).',
+            'DESIGN.md section 5, C03'),
 }
 
 PENDING_REASON = ('check designed (DESIGN.md section 5) but not yet built and '
